@@ -156,6 +156,16 @@ def r19_4(ctx):
         o = simplify(raw)
         ls = leafs(raw)
         if is_call(o, '::min', nargs=2) and 'N:socket::dns::MAX_RETRANSMIT_DELAY' in ls and f"F:{PQ}.delay" in ls:
+            grows = False
+            for a in call_args(o):
+                a0 = strip(a)
+                if f"F:{PQ}.delay" in leafs(a0) and ((a0[0] == 'call' and a0[1].endswith('::mul') and (const_int(simplify(a0[2][1])) or 0) >= 2)
+                                                     or (a0[0] == 'bin' and a0[1] == 'Mul' and (const_int(simplify(a0[3])) or 0) >= 2)):
+                    grows = True
+            if not grows:
+                ctx.bad("dispatch|delay|not-doubled", f"PendingQuery.delay = {show(o)[:80]}: the retransmission delay does not grow", body=b, bb=w['bb'])
+                seen_backoff = True
+                continue
             seen_backoff = True
             ctx.ok(('delay', 'backoff'), sample=dict(delay='min(MAX_RETRANSMIT_DELAY, delay * 2)'))
         elif 'N:socket::dns::RETRANSMIT_DELAY' in ls:
